@@ -105,7 +105,7 @@ func (t *tBinaryProto) binaryPack(m erpc.Message) error {
 	t.tProtocol.ClearWriteHeaders()
 	t.tProtocol.SetWriteHeader(HeaderStatus, m.Status(true).QueryString())
 	t.tProtocol.SetWriteHeader(HeaderMeta, goutil.BytesToString(m.Meta().QueryString()))
-	t.tProtocol.SetWriteHeader(HeaderBodyCodec, string(m.BodyCodec()))
+	t.tProtocol.SetWriteHeader(HeaderBodyCodec, string([]byte{m.BodyCodec()}))
 	t.tProtocol.SetWriteHeader(HeaderXferPipe, goutil.BytesToString(m.XferPipe().IDs()))
 
 	if err = t.tProtocol.WriteMessageEnd(); err != nil {
